@@ -16,6 +16,7 @@ RULE = ("inputs: generator programs under >= 3 random layouts (redundant parenth
         "statements or a comment.")
 RULE += (" " + 'Also: 71 hostile field names (leading underscore, digits, dashes, dots, blanks, empty, non-ASCII letters after an ASCII one, every keyword, punctuation) in 8 positions each (tuple literal, selector, copy, select arm, module parameter, constrained field, exemplar, string), a grid of 244 float literals over 61 decimal magnitudes, one to three trailing comment groups after the last statement, comment-only files.')
 RULE += (" " + "Every CLI sample is also formatted in place (`fmt -w`) and in directory mode from a loosely written source (trailing blanks, blank lines, a wide gap before the first token), so that the formatted text is shorter than the file it replaces; the file must equal the library's output.")
+RULE += (" " + 'Session 4: 5 of 12 texts are also formatted at indent width 0, 1, 2, 3 or 8 (the printer takes the width as a parameter) and judged by the same three oracles at that width.')
 
 
 def comments_of(text):
